@@ -50,6 +50,9 @@ type history struct {
 	unsure map[blob.Ref]int
 	ackSeq []int
 	tiny   bool // plaintexts of a fixed tiny shape (long histories)
+	// noFetch: preloaded blobs (recover5.go) that are stat'ed and enumerated at every restart like all
+	// others but not fetched (quick tier: a seeded sample of the preloaded blobs is fetched)
+	noFetch map[blob.Ref]bool
 }
 
 func runHistory(r *ev.Run, root string, h int) {
@@ -473,6 +476,9 @@ func (hs *history) verify(label string) {
 	// fetch
 	for _, pi := range live {
 		p := hs.plains[pi]
+		if hs.noFetch[p.Ref] {
+			continue
+		}
 		var b []byte
 		var size uint32
 		var err error
